@@ -7,7 +7,7 @@ use paseto_core::paserk::KeyId;
 use paseto_core::version::{Local, Public, Secret};
 use proptest::prelude::*;
 use serde::{Deserialize, Serialize};
-use serde_json::json;
+use serde_json::{Value, json};
 
 use crate::backends::*;
 use crate::engine::*;
@@ -197,8 +197,66 @@ fn idstr_strategy(k: String) -> impl Strategy<Value = IdStrCase> {
     })
 }
 
+/// Public keys supplied in edge-case encodings (non-canonical y, small order, ...): whatever a
+/// back end accepts has the id of the text it serialises to, keeps it across serialise / parse,
+/// and has the same id on the sibling back end when that accepts the same bytes.
+fn edge_encodings<B: Backend>(acc: &mut Acc) {
+    use paseto_core::version::PkePublic;
+    let name = B::NAME;
+    let ver = B::VER;
+    if !matches!(ver, Ver::V2 | Ver::V4) {
+        return;
+    }
+    for (shape, bytes) in crate::props::c08::ed25519_edge_encodings() {
+        let Ok(pk) = key_from_bytes::<V<B>, Public>(&bytes) else {
+            acc.eval();
+            acc.class("edge-encoding:rejected");
+            continue;
+        };
+        acc.class("edge-encoding:accepted");
+        acc.nt(hash_of(&(name, &shape)));
+        let rc = json!({"backend": name, "shape": shape, "bytes": hex::encode(&bytes)});
+        let own = key_bytes(&pk);
+        let pid = match id_checks::<B, Public>(acc, "public", "pid", &pk, &own, &bytes) {
+            Ok(p) => p,
+            Err(f) => {
+                acc.fail(f, rc.clone());
+                continue;
+            }
+        };
+        if let Ok(ppk) = key_from_bytes::<V<B>, PkePublic>(&bytes) {
+            if ppk.id().to_string() != pid {
+                acc.fail(Fail::new(format!("C13/{name}/pid/edge-encoding/pke-view-differs"), format!("{shape}: the same bytes as a PKE public key have another pid")), rc.clone());
+            }
+        }
+        crate::for_backends!(T => {
+            if T::VER == ver && T::NAME != name {
+                if let Ok(k2) = key_from_bytes::<V<T>, Public>(&bytes) {
+                    acc.eval();
+                    if k2.id().to_string() != pid {
+                        acc.fail(
+                            Fail::new(format!("C13/{name}/sibling/{}/edge-encoding-ids-differ", T::NAME), format!("public key bytes {} ({shape}) are accepted by both back ends but have pid {pid} here and {} there", hex::encode(&bytes), k2.id())),
+                            rc.clone(),
+                        );
+                    }
+                }
+            }
+        });
+    }
+}
+
 fn subs_for<B: Backend>(out: &mut Vec<SubCheck>) {
     let v1 = B::VER == Ver::V1;
+    if matches!(B::VER, Ver::V2 | Ver::V4) {
+        out.push(SubCheck::custom(format!("c13.edge-encodings/{}", B::NAME), 1, edge_encodings::<B>, |_v: &Value, acc: &mut Acc| {
+            let before = acc.violations.len();
+            edge_encodings::<B>(acc);
+            match acc.violations.get(before) {
+                Some(v) => Err(Fail::new(v.sig.clone(), v.what.clone())),
+                None => Ok(()),
+            }
+        }));
+    }
     out.push(SubCheck::prop(
         format!("c13.keyids/{}", B::NAME),
         if v1 { 6 } else { 3 },
@@ -221,7 +279,7 @@ pub fn def() -> PropertyDef {
     PropertyDef {
         id: "C13",
         level: "exploration",
-        rule: "proptest cases: generated keys of every kind per back end (v1 keys also offered as PEM) - id text equals the reference digest (SHA-384[..33] / BLAKE2b-33 by a foreign library) of `kN.<lid|sid|pid>.` || canonical PASERK text; equal across clone / serialise / parse / PEM-vs-DER / sibling back end / public_key(); related lid/sid/pid differ. Id strings: bodies of 0..80 bytes and arbitrary strings are accepted iff header + strict base64url of exactly 33 bytes; ==, Ord, Hash agree with the bytes. Non-trivial iff a generated (non-vector) key or an id body of length != 33 / a compared pair",
+        rule: "proptest cases: generated keys of every kind per back end (v1 keys also offered as PEM) - id text equals the reference digest (SHA-384[..33] / BLAKE2b-33 by a foreign library) of `kN.<lid|sid|pid>.` || canonical PASERK text; equal across clone / serialise / parse / PEM-vs-DER / sibling back end / public_key(); related lid/sid/pid differ. Id strings: bodies of 0..80 bytes and arbitrary strings are accepted iff header + strict base64url of exactly 33 bytes; ==, Ord, Hash agree with the bytes. Ed25519 public keys in edge encodings (unreduced y, small order, x = 0 with sign bit): whatever is accepted has the id of its own serialisation, stable across parse, and the same id on the sibling. Non-trivial iff a generated (non-vector) key or an id body of length != 33 / a compared pair",
         assumptions: vec!["the canonical PASERK text of v1 keys is the DER form (as the upstream vectors require)"],
         subs,
     }
